@@ -148,9 +148,8 @@ impl BoxedUint {
     pub fn from_str_radix_vartime(src: &str, radix: u32) -> Result<Self, DecodeError> {
         let mut dec = VecDecodeByLimb::default();
         encoding::radix_decode_str(src, radix, &mut dec)?;
-        Ok(Self {
-            limbs: dec.limbs.into(),
-        })
+        // `From<Vec<Limb>>` guarantees at least one limb (the numeral "0" decodes to no limbs)
+        Ok(dec.limbs.into())
     }
 
     /// Create a new [`BoxedUint`] from a big-endian string in a given base,
